@@ -28,7 +28,8 @@ from .common import emit, events_named
 
 MODE = "mpf/core/mode.py"
 MC = "mpf/core/mode_controller.py"
-B2 = "BOUNDED: registries (handler keys, switch handlers, devices, stop methods, callbacks) of at most 2 entries"
+NB = common.bound(2, 3)
+B2 = "BOUNDED: registries (handler keys, switch handlers, devices, stop methods, callbacks) of at most %d entries" % NB
 
 
 def _lt(I, a, b):
@@ -181,7 +182,7 @@ def build():
     # ------------------------------------------------------------------ Mode
     def keys(kind, what):
         def init(I, name):
-            n = I.ctx.fork(3)
+            n = I.ctx.fork(NB + 1)
             ks = [VOpaque(kind, z3.Const("%s.%s%d" % (name, what, i), usort(kind))) for i in range(n)]
             return ks
         return init
@@ -199,18 +200,18 @@ def build():
         return I.new_list(ks, name)
 
     def devices(I, name):
-        n = I.ctx.fork(3)
+        n = I.ctx.fork(NB + 1)
         return I.new_set([VObj(Obj("ModeDeviceI", ObjS("ModeDeviceI", {}), "%s.dev%d" % (name, i))) for i in range(n)],
                          name)
 
     def stop_methods(I, name):
-        n = I.ctx.fork(3)
+        n = I.ctx.fork(NB + 1)
         return I.new_list([VTuple([VOpaque("Fn", z3.Const("%s.method%d" % (name, i), usort("Fn"))),
                                    VOpaque("Any", z3.Const("%s.arg%d" % (name, i), usort("Any")))]) for i in range(n)],
                           name)
 
     def callbacks(I, name):
-        n = I.ctx.fork(3)
+        n = I.ctx.fork(NB + 1)
         return I.new_list([VOpaque("Fn", z3.Const("%s.cb%d" % (name, i), usort("Fn"))) for i in range(n)], name)
 
     def ev_names(I, name):
